@@ -19,6 +19,23 @@ thread_local! {
     static CALLBACKS: Cell<u32> = Cell::new(0);
     /// runs of the child function that edits the expert node's dependencies
     static CHILD_RUNS: Cell<u32> = Cell::new(0);
+    /// an observer that the expert node's observability-change callback reads (C07: from inside a
+    /// stabilise such a read must fail with CurrentlyStabilising), and what it got
+    static PROBE: RefCell<Option<Observer<i32>>> = RefCell::new(None);
+    static IN_STABILISE: Cell<bool> = Cell::new(false);
+    static PROBE_READS: RefCell<Vec<String>> = RefCell::new(Vec::new());
+}
+
+fn obs_change_probe(now_observable: bool) {
+    if !IN_STABILISE.with(|c| c.get()) {
+        return;
+    }
+    let got = PROBE.with(|p| p.borrow().as_ref().map(|o| o.try_get_value()));
+    if let Some(r) = got {
+        if r != Err(incremental::ObserverError::CurrentlyStabilising) {
+            PROBE_READS.with(|v| v.borrow_mut().push(format!("observability-change callback (now observable: {now_observable}) read an observer during stabilise and got {r:?}")));
+        }
+    }
 }
 
 #[derive(Clone, Debug, PartialEq, Default)]
@@ -109,7 +126,7 @@ type Deps = Rc<RefCell<Vec<(u8, Dependency<i32>, Rc<Cell<Option<i32>>>)>>>;
 fn dyn_sum(w: &World, ctl: &Var<Ctl>) -> (Incr<i32>, Deps) {
     let deps: Deps = Rc::new(RefCell::new(vec![]));
     let state = w.st.weak();
-    let sum = Node::<i32>::new(&state, {
+    let sum = Node::<i32>::new_(&state, {
         let deps = deps.clone();
         move || {
             RECOMPUTES.with(|r| r.set(r.get() + 1));
@@ -129,7 +146,7 @@ fn dyn_sum(w: &World, ctl: &Var<Ctl>) -> (Incr<i32>, Deps) {
             }
             total
         }
-    });
+    }, obs_change_probe);
     let weak: WeakNode<i32> = sum.weak();
     let pool = w.pool.clone();
     let slot_src = w.slot.clone();
@@ -177,13 +194,13 @@ fn dyn_sum(w: &World, ctl: &Var<Ctl>) -> (Incr<i32>, Deps) {
 fn expert_bind(incr: &Incr<i32>, pool: Vec<Incr<i32>>, slot: Rc<RefCell<Option<Incr<i32>>>>, chosen: Rc<Cell<u8>>) -> Incr<i32> {
     let prev: Rc<RefCell<Option<Dependency<i32>>>> = Rc::new(None.into());
     let state = incr.state();
-    let join = Node::<i32>::new(&state, {
+    let join = Node::<i32>::new_(&state, {
         let prev = prev.clone();
         move || {
             RECOMPUTES.with(|r| r.set(r.get() + 1));
             prev.borrow().clone().unwrap().value_cloned()
         }
-    });
+    }, obs_change_probe);
     let weak = join.weak();
     let lhs_change = incr.map(move |v: &i32| {
         CHILD_RUNS.with(|c| c.set(c.get() + 1));
@@ -225,6 +242,8 @@ pub fn run_c14(bytes: &[u8], tier: Tier) -> Outcome {
         let x0 = [ch.choose(4) as i32, ch.choose(4) as i32, ch.choose(4) as i32];
         let sw0 = ch.choose(4) as i32;
         let w = world(x0, sw0);
+        PROBE_READS.with(|v| v.borrow_mut().clear());
+        PROBE.with(|p| *p.borrow_mut() = Some(w.x[0].observe()));
         let mut m = M { x: x0, sw: sw0, gen: 0, sw_at_last_run: sw0, slot: None };
         let mut bind_ran = false;
         let mut ctl = Ctl::default();
@@ -367,7 +386,14 @@ pub fn run_c14(bytes: &[u8], tier: Tier) -> Outcome {
             }
             RECOMPUTES.with(|r| r.set(0));
             CHILD_RUNS.with(|r| r.set(0));
+            IN_STABILISE.with(|c| c.set(true));
             let res = guarded(|| w.st.stabilise());
+            IN_STABILISE.with(|c| c.set(false));
+            let probe_reads = PROBE_READS.with(|v| std::mem::take(&mut *v.borrow_mut()));
+            if let Some(m) = probe_reads.first() {
+                fails.push(Failure { prop: "C07", clause: "read-inside-node-function", msg: format!("step {step}: the expert node's {m}, expected Err(CurrentlyStabilising)") });
+                return;
+            }
             rounds += 1;
             let recomputes = RECOMPUTES.with(|r| r.get());
             trace.push(format!("stabilise -> {recomputes} recompute(s) of the expert node"));
@@ -542,6 +568,7 @@ pub fn run_c14(bytes: &[u8], tier: Tier) -> Outcome {
         ];
     });
     INNER.with(|i| *i.borrow_mut() = None);
+    PROBE.with(|p| *p.borrow_mut() = None);
     if let Err(e) = r {
         fails.push(Failure { prop: "C14", clause: "panic", msg: format!("panic outside stabilise: {e}") });
     }
